@@ -6,23 +6,14 @@ From Coq Require Import Lia.
 From AV Require Import Base.Util Model.Consumer Model.ConsumerLog Proofs.ConsumerC02Wp.
 
 Notation wq := (wp req_out).
-(* the kinds of offset/fetch requests are never confused with the commit request's *)
-(* invariant needed besides the abstraction: request kinds are never confused with the commit request's, and a fetch
-   reply is parked behind a block in progress only while its (fired) request Deferred is still held *)
+(* invariant needed besides the abstraction: request kinds are never confused with the commit request's; a fetch
+   reply is parked behind a block in progress only while its (fired) request Deferred is still held; the outcomes
+   held back until an API call returns are start / shutdown outcomes *)
 Definition req_neutral (o : output) : bool := match o with OStartD _ _ | OShutD _ _ _ => true | _ => false end.
 Definition kind_ok (s : state) : bool :=
   match s_req s with Some (k, _) => negb (k =? R_COMMIT) | None => true end
   && implb (parked s) (match s_req s with Some (_, true) => true | _ => false end)
   && forallb req_neutral (s_pend s).
-(* frames: no method run inside a continuation makes a request outstanding or parks a reply (except KFetchResp itself) *)
-Definition R1 (s s' : state) : Prop := req_pending s = false -> req_pending s' = false.
-Definition R2 (s s' : state) : Prop := parked s = false -> parked s' = false.
-Definition guard (k : kont) (s : state) (r : res unit) : Prop :=
-  match k with KFetchResp _ _ => s_mblock s = None \/ (exists x, r = Exc x) | _ => True end.
-Definition QF (s : state) {A} : res A -> greq -> state -> Prop :=
-  fun _ g' s' => (g' = req_abs s' /\ kind_ok s' = true) /\ R1 s s' /\ R2 s s'.
-Definition QK (k : kont) (s : state) : res unit -> greq -> state -> Prop :=
-  fun r g' s' => (g' = req_abs s' /\ kind_ok s' = true) /\ R1 s s' /\ (parked s = false -> guard k s r -> parked s' = false).
 Definition QI {A} : res A -> greq -> state -> Prop := fun _ g s => g = req_abs s /\ kind_ok s = true.
 
 Definition kpre (k : kont) (s : state) : bool :=       (* a fetch reply is handled after its request Deferred fired *)
@@ -59,52 +50,34 @@ Ltac bool_hyps :=
   | H : negb _ = false |- _ => apply negb_false_iff in H
   | H : _ || _ = false |- _ => apply orb_false_elim in H; destruct H
   end.
-Ltac bcomp := rewrite ?forallb_app in *; cbn [negb andb orb implb Z.eqb Pos.eqb R_COMMIT R_FETCH R_OFFREQ R_OFFFETCH q_rk q_tm q_co q_lc forallb req_neutral] in *.
+Ltac bcomp := rewrite ?forallb_app in *;
+  cbn [negb andb orb implb Z.eqb Pos.eqb R_COMMIT R_FETCH R_OFFREQ R_OFFFETCH q_rk q_tm q_co q_lc forallb req_neutral] in *.
 Ltac qfin := psimpl; bcomp; bool_hyps; rw_eqs; bcomp; first [ reflexivity | assumption | congruence ].
 Ltac unf :=
   repeat match goal with
-  | H : QF _ _ _ _ |- _ => unfold QF in H
-  | H : QK _ _ _ _ _ |- _ => unfold QK in H
   | H : kind_ok _ = _ |- _ => unfold kind_ok, parked in H
   | H : kpre _ _ = _ |- _ => unfold kpre, req_pending in H
   | H : req_pending _ = _ |- _ => unfold req_pending in H
   | H : parked _ = _ |- _ => unfold parked in H
   | H : QI _ _ _ |- _ => unfold QI in H
   end;
-  unfold QF, QK, R1, R2, guard, kpre; unfold QI, req_abs, rcall_active, req_pending, kind_ok, parked.
-Ltac pre_hyps :=
-  repeat match goal with
-  | H : _ \/ _ |- _ => destruct H
-  | H : exists _, _ |- _ => destruct H
-  | H : Ok _ = Exc _ |- _ => discriminate H
-  | H : Exc _ = Ok _ |- _ => discriminate H
-  end.
+  unfold kpre; unfold QI, req_abs, rcall_active, req_pending, kind_ok, parked.
 Ltac qsearch n :=
-  first [ solve [qfin] | solve [left; qfin] | solve [right; eexists; reflexivity]
+  first [ solve [qfin]
         | lazymatch n with O => fail | S ?m => case1; qsearch m end ].
-Ltac qsolve0 :=
-  unfold QI, QF, QK; repeat split; unf; intros; pre_hyps; unf; psimpl; rw_hyps; rw_eqs; cbn beta iota in *;
+Ltac qsolve :=
+  unfold QI; repeat split; unf; psimpl; rw_hyps; rw_eqs; cbn beta iota in *;
   try reflexivity; try assumption; try (f_equal; try reflexivity);
-  qsearch 4%nat.
-(* forward chaining through the frames of the calls made so far *)
-Ltac chain :=
-  repeat match goal with
-  | P : R1 _ _ |- _ => unfold R1 in P
-  | P : R2 _ _ |- _ => unfold R2 in P
-  | P : ?A -> _ |- _ =>
-    lazymatch type of A with Prop => idtac end;
-    let H := fresh "C" in assert (H : A) by (clear P; first [ exact I | solve [qsolve0] ]); specialize (P H)
-  end.
-Ltac qsolve := first [ solve [qsolve0] | unfold QI, QF, QK, R1, R2, guard; repeat split; intros; chain; solve [qsolve0] ].
+  qsearch 5%nat.
 
 Ltac kind_fact :=
   try match goal with
   | K : kind_ok ?s = true, D : s_req ?s = Some (?z, _) |- _ =>
     lazymatch goal with
     | _ : (z =? R_COMMIT) = false |- _ => fail
-    | _ => let K' := fresh "K" in let K'' := fresh "K" in
-           pose proof K as K'; unfold kind_ok in K'; rewrite D in K'; apply andb_prop in K'; destruct K' as [K' K''];
-           apply negb_true_iff in K'; clear K''
+    | _ => let K' := fresh "K" in let K'' := fresh "K" in let K3 := fresh "K" in
+           pose proof K as K'; unfold kind_ok in K'; rewrite D in K'; apply andb_prop in K'; destruct K' as [K' K3];
+           apply andb_prop in K'; destruct K' as [K' K'']; apply negb_true_iff in K'; clear K'' K3
     end
   end.
 Ltac q_emit :=
@@ -129,43 +102,44 @@ Ltac q_docall lem :=
   eapply q_eq; [ solve [qsolve] |
     eapply wp_call; [ eapply lem; try solve [qsolve]
                     | let r := fresh "r" in let H := fresh "P" in
-                      intros r ? ? H; unfold QI, QF, QK in H; destr_post H; destruct r; cbn beta iota ] ].
-Ltac q_walk call := repeat (first [ q_emit | wp_step call ]).
+                      intros r ? ? H; unfold QI in H; destr_post H; destruct r; cbn beta iota ] ].
+(* an [if] inside the state term (shutdown's retry limit) is split first *)
+Ltac q_stif :=
+  lazymatch goal with
+  | |- wp _ _ _ _ ?st => match st with context [if ?b then _ else _] => let D := fresh "D" in destruct b eqn:D end
+  end.
+Ltac q_walk call := repeat (first [ q_stif | q_emit | wp_step call ]).
 Ltac q_done := try solve [qsolve].
 
 (* ---------- methods without re-entrancy ---------- *)
 Lemma q_startd_errback fk s : kind_ok s = true ->
-  wq (startd_errback fk) (fun _ g' s' => (g' = req_abs s' /\ kind_ok s' = true) /\ s_req s' = s_req s /\ s_creq s' = s_creq s /\ s_mblock s' = s_mblock s) (req_abs s) s.
+  wq (startd_errback fk) (fun _ g' s' => (g' = req_abs s' /\ kind_ok s' = true) /\ s_req s' = s_req s /\ s_creq s' = s_creq s) (req_abs s) s.
 Proof. intro K. unfold startd_errback. q_walk idtac. all: q_done. Qed.
 Ltac c1 := idtac; lazymatch goal with
   | |- wp _ (startd_errback _) _ _ _ => q_docall q_startd_errback end.
 
-Lemma q_do_fetch s : kind_ok s = true ->
-  wq do_fetch QI (req_abs s) s.
+Lemma q_do_fetch s : kind_ok s = true -> wq do_fetch QI (req_abs s) s.
 Proof. intro K. unfold do_fetch. q_walk c1. all: q_done. Qed.
 Ltac c2 := idtac; first [ c1 | lazymatch goal with
   | |- wp _ do_fetch _ _ _ => q_docall q_do_fetch end ].
 
 Lemma q_retry_fetch z s : kind_ok s = true ->
-  wq (retry_fetch z) (fun _ g' s' => (g' = req_abs s' /\ kind_ok s' = true) /\ s_req s' = s_req s /\ s_creq s' = s_creq s /\ s_mblock s' = s_mblock s) (req_abs s) s.
+  wq (retry_fetch z) (fun _ g' s' => (g' = req_abs s' /\ kind_ok s' = true) /\ s_req s' = s_req s /\ s_creq s' = s_creq s) (req_abs s) s.
 Proof. intro K. unfold retry_fetch. q_walk c2. all: q_done. Qed.
 Ltac c3 := idtac; first [ c2 | lazymatch goal with
   | |- wp _ (retry_fetch _) _ _ _ => q_docall q_retry_fetch end ].
 
 Lemma q_handle_offset_error fk s : kind_ok s = true -> req_pending s = false -> parked s = false ->
-  wq (handle_offset_error fk) (fun _ g' s' => (g' = req_abs s' /\ kind_ok s' = true) /\ req_pending s' = false /\ s_mblock s' = s_mblock s) (req_abs s) s.
+  wq (handle_offset_error fk) (fun _ g' s' => (g' = req_abs s' /\ kind_ok s' = true) /\ req_pending s' = false) (req_abs s) s.
 Proof. intros K NP NK. unfold handle_offset_error. q_walk c3. all: q_done. Qed.
 Lemma q_handle_fetch_error fk s : kind_ok s = true -> req_pending s = false -> parked s = false ->
-  wq (handle_fetch_error fk) (fun _ g' s' => (g' = req_abs s' /\ kind_ok s' = true) /\ req_pending s' = false /\ s_mblock s' = s_mblock s) (req_abs s) s.
+  wq (handle_fetch_error fk) (fun _ g' s' => (g' = req_abs s' /\ kind_ok s' = true) /\ req_pending s' = false) (req_abs s) s.
 Proof. intros K NP NK. unfold handle_fetch_error. q_walk c3. all: q_done. Qed.
-Lemma q_handle_auto_commit_error fk s : kind_ok s = true ->
-  wq (handle_auto_commit_error fk) (QF s) (req_abs s) s.
+Lemma q_handle_auto_commit_error fk s : kind_ok s = true -> wq (handle_auto_commit_error fk) QI (req_abs s) s.
 Proof. intro K. unfold handle_auto_commit_error. q_walk c3. all: q_done. Qed.
-Lemma q_handle_processor_error fk s : kind_ok s = true ->
-  wq (handle_processor_error fk) (QF s) (req_abs s) s.
+Lemma q_handle_processor_error fk s : kind_ok s = true -> wq (handle_processor_error fk) QI (req_abs s) s.
 Proof. intro K. unfold handle_processor_error. q_walk c3. all: q_done. Qed.
-Lemma q_send_commit_request i a s : kind_ok s = true ->
-  wq (send_commit_request i a) (QF s) (req_abs s) s.
+Lemma q_send_commit_request i a s : kind_ok s = true -> wq (send_commit_request i a) QI (req_abs s) s.
 Proof. intro K. unfold send_commit_request. q_walk c3. all: q_done. Qed.
 Ltac c4 := idtac; first [ c3 | lazymatch goal with
   | |- wp _ (handle_offset_error _) _ _ _ => q_docall q_handle_offset_error
@@ -174,32 +148,26 @@ Ltac c4 := idtac; first [ c3 | lazymatch goal with
   | |- wp _ (handle_processor_error _) _ _ _ => q_docall q_handle_processor_error
   | |- wp _ (send_commit_request _ _) _ _ _ => q_docall q_send_commit_request end ].
 
-Lemma q_commit w s : kind_ok s = true ->
-  wq (commit w) (QF s) (req_abs s) s.
+Lemma q_commit w s : kind_ok s = true -> wq (commit w) QI (req_abs s) s.
 Proof. intro K. unfold commit. q_walk c4. all: q_done. Qed.
 Ltac c5 := idtac; first [ c4 | lazymatch goal with
   | |- wp _ (commit _) _ _ _ => q_docall q_commit end ].
-Lemma q_auto_commit bc s : kind_ok s = true ->
-  wq (auto_commit bc) (QF s) (req_abs s) s.
+Lemma q_auto_commit bc s : kind_ok s = true -> wq (auto_commit bc) QI (req_abs s) s.
 Proof. intro K. unfold auto_commit. q_walk c5. all: q_done. Qed.
 Ltac c6 := idtac; first [ c5 | lazymatch goal with
   | |- wp _ (auto_commit _) _ _ _ => q_docall q_auto_commit end ].
-Lemma q_proc_chain l fk s : kind_ok s = true ->
-  wq (proc_chain l fk) (QF s) (req_abs s) s.
+Lemma q_proc_chain l fk s : kind_ok s = true -> wq (proc_chain l fk) QI (req_abs s) s.
 Proof. intro K. unfold proc_chain. q_walk c6. all: q_done. Qed.
-Lemma q_pop_plan s : kind_ok s = true ->
-  wq pop_plan (QF s) (req_abs s) s.
+Lemma q_pop_plan s : kind_ok s = true -> wq pop_plan QI (req_abs s) s.
 Proof. intro K. unfold pop_plan. q_walk c6. all: q_done. Qed.
-Lemma q_emit_shutd ok v lc s : kind_ok s = true ->
-  wq (emit_shutd (OShutD ok v lc)) (QF s) (req_abs s) s.
+Lemma q_emit_shutd ok v lc s : kind_ok s = true -> wq (emit_shutd (OShutD ok v lc)) QI (req_abs s) s.
 Proof. intro K. unfold emit_shutd. q_walk c6. all: q_done. Qed.
 Ltac c7 := idtac; first [ c6 | lazymatch goal with
   | |- wp _ (proc_chain _ _) _ _ _ => q_docall q_proc_chain
   | |- wp _ pop_plan _ _ _ => q_docall q_pop_plan
   | |- wp _ (emit_shutd (OShutD _ _ _)) _ _ _ => q_docall q_emit_shutd
   | |- wp _ (emit_shutd (match ?x with _ => _ end)) _ _ _ => destruct x end ].
-Lemma q_interrupted s : kind_ok s = true ->
-  wq interrupted (QF s) (req_abs s) s.
+Lemma q_interrupted s : kind_ok s = true -> wq interrupted QI (req_abs s) s.
 Proof. intro K. unfold interrupted. q_walk c7. all: q_done. Qed.
 Ltac c8 := idtac; first [ c7 | lazymatch goal with
   | |- wp _ interrupted _ _ _ => q_docall q_interrupted end ].
@@ -207,35 +175,28 @@ Ltac c8 := idtac; first [ c7 | lazymatch goal with
 (* ---------- the re-entrant methods ---------- *)
 Section Rec.
 Variable rec : kont -> M unit.
-Hypothesis Hrec : forall k s, kind_ok s = true -> kpre k s = true -> wq (rec k) (QK k s) (req_abs s) s.
+Hypothesis Hrec : forall k s, kind_ok s = true -> kpre k s = true -> wq (rec k) QI (req_abs s) s.
 
 Ltac c9 := idtac; first [ c8 | lazymatch goal with
   | |- wp _ (rec _) _ _ _ => q_docall Hrec end ].
 
-Lemma q_api_stop s : kind_ok s = true ->
-  wq (api_stop rec) (QF s) (req_abs s) s.
+Lemma q_api_stop s : kind_ok s = true -> wq (api_stop rec) QI (req_abs s) s.
 Proof. intro K. unfold api_stop. q_walk c9. all: q_done. Qed.
-Lemma q_api_commit s : kind_ok s = true ->
-  wq api_commit (QF s) (req_abs s) s.
+Lemma q_api_commit s : kind_ok s = true -> wq api_commit QI (req_abs s) s.
 Proof. intro K. unfold api_commit. q_walk c9. all: q_done. Qed.
-Lemma q_handle_commit_error fk i a s : kind_ok s = true ->
-  wq (handle_commit_error rec fk i a) (QF s) (req_abs s) s.
+Lemma q_handle_commit_error fk i a s : kind_ok s = true -> wq (handle_commit_error rec fk i a) QI (req_abs s) s.
 Proof. intro K. unfold handle_commit_error. q_walk c9. all: q_done. Qed.
-Lemma q_fire_all ds r s : kind_ok s = true ->
-  wq (fire_all rec ds r) (QF s) (req_abs s) s.
+Lemma q_fire_all ds r s : kind_ok s = true -> wq (fire_all rec ds r) QI (req_abs s) s.
 Proof.
   revert s. induction ds as [|d ds IH]; intros s K; cbn [fire_all].
   - q_walk c9. all: q_done.
   - q_walk c9. all: try (apply IH; solve [qsolve]). all: q_done.
 Qed.
-Lemma q_finish_block s : kind_ok s = true ->
-  wq (finish_block rec) (QF s) (req_abs s) s.
+Lemma q_finish_block s : kind_ok s = true -> wq (finish_block rec) QI (req_abs s) s.
 Proof. intro K. unfold finish_block. q_walk c9. all: q_done. Qed.
-Lemma q_stop_proc s : kind_ok s = true ->
-  wq (stop_proc rec) (QF s) (req_abs s) s.
+Lemma q_stop_proc s : kind_ok s = true -> wq (stop_proc rec) QI (req_abs s) s.
 Proof. intro K. unfold stop_proc. q_walk c9. all: q_done. Qed.
-Lemma q_stop_rcall s : kind_ok s = true ->
-  wq stop_rcall (QF s) (req_abs s) s.
+Lemma q_stop_rcall s : kind_ok s = true -> wq stop_rcall QI (req_abs s) s.
 Proof. intro K. unfold stop_rcall. q_walk c9. all: q_done. Qed.
 Ltac c10 := idtac; first [ c9 | lazymatch goal with
   | |- wp _ (api_stop _) _ _ _ => q_docall q_api_stop
@@ -245,20 +206,15 @@ Ltac c10 := idtac; first [ c9 | lazymatch goal with
   | |- wp _ (finish_block _) _ _ _ => q_docall q_finish_block
   | |- wp _ (stop_proc _) _ _ _ => q_docall q_stop_proc
   | |- wp _ stop_rcall _ _ _ => q_docall q_stop_rcall end ].
-Lemma q_stop_creq s : kind_ok s = true ->
-  wq (stop_creq rec) (QF s) (req_abs s) s.
+Lemma q_stop_creq s : kind_ok s = true -> wq (stop_creq rec) QI (req_abs s) s.
 Proof. intro K. unfold stop_creq. q_walk c10. all: q_done. Qed.
-Lemma q_stop_ccall s : kind_ok s = true ->
-  wq stop_ccall (QF s) (req_abs s) s.
+Lemma q_stop_ccall s : kind_ok s = true -> wq stop_ccall QI (req_abs s) s.
 Proof. intro K. unfold stop_ccall. q_walk c10. all: q_done. Qed.
-Lemma q_stop_looper s : kind_ok s = true ->
-  wq stop_looper (QF s) (req_abs s) s.
+Lemma q_stop_looper s : kind_ok s = true -> wq stop_looper QI (req_abs s) s.
 Proof. intro K. unfold stop_looper. q_walk c10. all: q_done. Qed.
-Lemma q_stop_susp s : kind_ok s = true ->
-  wq stop_susp (QF s) (req_abs s) s.
+Lemma q_stop_susp s : kind_ok s = true -> wq stop_susp QI (req_abs s) s.
 Proof. intro K. unfold stop_susp. q_walk c10. all: q_done. Qed.
-Lemma q_stop_startd s : kind_ok s = true ->
-  wq stop_startd (QF s) (req_abs s) s.
+Lemma q_stop_startd s : kind_ok s = true -> wq stop_startd QI (req_abs s) s.
 Proof. intro K. unfold stop_startd. q_walk c10. all: q_done. Qed.
 Ltac c11 := idtac; first [ c10 | lazymatch goal with
   | |- wp _ (stop_creq _) _ _ _ => q_docall q_stop_creq
@@ -267,11 +223,11 @@ Ltac c11 := idtac; first [ c10 | lazymatch goal with
   | |- wp _ stop_susp _ _ _ => q_docall q_stop_susp
   | |- wp _ stop_startd _ _ _ => q_docall q_stop_startd end ].
 
-Lemma q_body k s : kind_ok s = true -> kpre k s = true ->
-  wq (body rec k) (QK k s) (req_abs s) s.
+Lemma q_body k s : kind_ok s = true -> kpre k s = true -> wq (body rec k) QI (req_abs s) s.
 Proof.
   intros K KP. destruct k; cbn [body].
-  - (* KStop *) unfold stop_req, stop_mblock. q_walk c11. all: q_done.
+  - (* KStop: its first two blocks (request, parked reply) are walked through together *)
+    unfold stop_req, stop_mblock. q_walk c11. all: q_done.
   - (* KStopCds *) q_walk c11. all: q_done.
   - (* KFireProc *) q_walk c11. all: q_done.
   - (* KProcLoop *) q_walk c11. all: q_done.
@@ -284,9 +240,9 @@ Qed.
 End Rec.
 
 Definition QPre : kont -> greq -> state -> Prop := fun k g s => g = req_abs s /\ kind_ok s = true /\ kpre k s = true.
-Lemma q_run fuel : forall k s, kind_ok s = true -> kpre k s = true -> wq (run fuel k) (QK k s) (req_abs s) s.
+Lemma q_run fuel : forall k s, kind_ok s = true -> kpre k s = true -> wq (run fuel k) QI (req_abs s) s.
 Proof.
-  assert (Hk : kspec greq req_out QPre (fun k _ s => QK k s) (run fuel)).
+  assert (Hk : kspec greq req_out QPre (fun _ _ _ => QI) (run fuel)).
   { apply run_kspec. intros rec Hrec k g s (-> & K & KP). apply q_body; auto.
     intros k' s' K' KP'. apply Hrec. repeat split; auto. }
   intros k s K KP. apply Hk. repeat split; auto.
